@@ -10,6 +10,7 @@
 (*   vid   : per line, the id of the PC value written on it (0: none)        *)
 (*           lenok  the name is at most 4096 bytes                           *)
 (*           text   a digest of the name string                              *)
+(*           entry  "function" or "monitor" (see CrashParse!Entries)           *)
 (*           pathpc this concretization has " pc=" inside a file path (the   *)
 (*                  harness adds a control rendering that differs in those   *)
 (*                  four bytes only)                                         *)
@@ -30,6 +31,10 @@ Explained(r) == LET h == Lines(r) IN
 Class(r) == LET h == Lines(r)  n == Len(r.obs) IN
    IF \E k \in 1..n : r.obs[k].kind \in {"panic", "hang"}
       THEN (CHOOSE k \in 1..n : r.obs[k].kind \in {"panic", "hang"})   \* index; kind read in python
+   ELSE IF /\ \E k \in 1..n : r.obs[k].entry = "monitor"
+           /\ LET f == SelectSeq(r.obs, LAMBDA o : o.entry = "function") IN
+              (\A k \in 1..Len(f) : Allowed(h, r.vid, f[k])) /\ NonInterference(f)
+      THEN -9         \* only the monitor process (fed through a pipe, padded texts) disagrees
    ELSE IF /\ ~WellFormed(h) /\ WellFormed(AsText(h))
            /\ \A k \in 1..n : r.obs[k].kind \in {"err", "nogo", "name", "other"}
       THEN -8         \* a later "sentinel ..." line changes the result
